@@ -292,13 +292,13 @@ _src_locks = {}
 SRC_CACHE = os.path.join(BUILD, "_src")
 
 
-# The only differences between the verified text and /repo's files (everything else is compiled unmodified):
-REWRITES = {
-    # gcc accepts a static initialised from another static const as an extension; goto-cc wants a constant expression.
-    # The replacement is the initialiser of MASK_HI substituted for its name.
-    "q120/q120_arithmetic_simple.c": [("static const int64_t MASK_LO = ~MASK_HI;",
-                                       "static const int64_t MASK_LO = ~INT64_C(0x8000000000000000);")],
-}
+# The only difference between the verified text and /repo's files (everything else is compiled unmodified): inside function
+# bodies (indented declarations) the storage class `static` of `static const` objects is dropped.  A const object's storage
+# duration is not observable; goto-cc rejects a static initialised from another static (`static const int64_t MASK_LO =
+# ~MASK_HI;`, gcc extension) and dfcc havocs function-local statics of the function under contract.  Applied mechanically to
+# every source on every run; the number of rewritten declarations per file is reported in the evidence (trusted_base).
+_LOCAL_STATIC_CONST = re.compile(r"^([ \t]+)static const ", re.M)
+REWRITE_COUNTS = {}
 
 
 def reset_source_cache():
@@ -321,15 +321,12 @@ def compile_source(s, avx, strict, export_static):
         if os.path.exists(out):
             return out
         os.makedirs(SRC_CACHE, exist_ok=True)
-        if s in REWRITES:
-            # mechanical, must-fire textual substitutions for constructs goto-cc's C front end rejects (DESIGN 8)
-            text = open(src).read()
-            for pat, rep in REWRITES[s]:
-                if text.count(pat) != 1:
-                    raise Undecided("extraction break: rewrite rule for %s did not fire exactly once: %r" % (s, pat))
-                text = text.replace(pat, rep)
+        text = open(src).read()
+        text2, nrw = _LOCAL_STATIC_CONST.subn(r"\1const ", text)
+        if nrw:
+            REWRITE_COUNTS[s] = nrw
             src = os.path.join(SRC_CACHE, key + ".rewritten.c")
-            open(src, "w").write(text)
+            open(src, "w").write(text2)
         cmd = ["goto-cc", "-c", src, "-o", out + ".tmp", "-DNDEBUG", "-D" + GUARD, "-I" + SRC, "-I" + os.path.dirname(os.path.join(SRC, s))]
         if avx:
             cmd += ["-isystem", os.path.join(VERIF, "shim"), "-mavx2", "-mfma"]
@@ -426,6 +423,11 @@ def instrument_job(job, a, wd):
     cmd += [cur, b]
     rc, o, e = run(cmd, timeout=600, mem_kb=MEM_KB)
     if rc != 0:
+        m = re.search(r"Function to replace '([^']+)' not found", (e or "") + (o or ""))
+        if m and any(f == m.group(1) for f, _ in job.replace):
+            # the code under proof no longer calls this callee: its contract is simply not needed
+            job.replace = [(f, c) for f, c in job.replace if f != m.group(1)]
+            return instrument_job(job, a, wd)
         raise Undecided("goto-instrument --dfcc failed: " + ((e or "") + (o or ""))[-900:])
     return b
 
